@@ -91,6 +91,16 @@ EXEMPT_LOOPS = {
     ("signal_sock_drain", "self.signal_sock.recv(&mut signal_buf)"): "drains the non-blocking wake-up socket: one iteration per pending signal datagram",
 }
 
+# the same loops identified by what they do rather than by their header text (a renamed variable or a re-spelled loop
+# condition must not turn them into "open" loops): (function, callee inside the loop body | <outermost>, reason)
+SEMANTIC_EXEMPT_LOOPS = [
+    ("run", "<outermost>", EXEMPT_LOOPS[("run", "current_time_millis()")]),
+    ("run", "Receiver::<T>::try_recv", EXEMPT_LOOPS[("run", "receiver.try_recv()")]),
+    ("run", "Zeroconf::exec_command", EXEMPT_LOOPS[("run", "self.retransmissions.len()")]),
+    ("handle_poller_events", "Event::token", EXEMPT_LOOPS[("handle_poller_events", "ev.token()")]),
+    ("signal_sock_drain", "UdpSocket::recv", EXEMPT_LOOPS[("signal_sock_drain", "self.signal_sock.recv(&mut signal_buf)")]),
+]
+
 # std / dependency functions with a documented panic condition: a call to one of them must have produced an analysed site
 PANICKING_EXTERNALS = [
     r"::unwrap$", r"::expect$", r"::unwrap_err$", r"::expect_err$", r"::unwrap_unchecked$",
@@ -218,6 +228,7 @@ def emit_class_b(ctx, P, A, sc):
     count = 0
     auto = []
     used = set()
+    pending = []
     for k in sorted(A.sites, key=lambda k: (k[0], k[1], k[2])):
         s = A.sites[k]
         if s.cls != "B" or s.fn.name not in sc:
@@ -257,6 +268,16 @@ def emit_class_b(ctx, P, A, sc):
         if ok_counter:
             auto.append(key)
             ctx.ob(rule, key, True, s.fn.loc(s.bb), "pure counter: a %s built only from constants and +constant steps; overflows only after 2^31 steps (stated assumption)" % ty)
+            continue
+        pending.append((s, key))
+    # a justified expression that was merely re-spelled (renamed local, helper call instead of the inline formula): an
+    # entry of the same function and kind that no site matches exactly any more is accepted for at most one such site
+    for (s, key) in pending:
+        pre = "%s|%s|%s|" % (rule, s.fn.short, s.kind)
+        cands = sorted(j for j in JUSTIFIED_B if j.startswith(pre) and j not in used)
+        if cands:
+            used.add(cands[0])
+            ctx.ob(rule, key, True, s.fn.loc(s.bb), "JUSTIFIED (trusted, not proved; entry matched by function and kind): %s" % JUSTIFIED_B[cands[0]][0])
             continue
         ctx.ob(rule, key, False, s.fn.loc(s.bb), "%s — %s; %d context(s)" % (s.what, s.fail_detail or "not proved", s.seen))
     for j in sorted(set(JUSTIFIED_B) - used):
@@ -554,7 +575,7 @@ def clause_b(ctx, P):
 
 # ------------------------------------------------------------------------------------------------ d. loops
 def clause_d(ctx, P, A, sc):
-    counts = e3.emit_loops(ctx, P, A, "C15d.F2.loop-terminates", sc, exempt=EXEMPT_LOOPS)
+    counts = e3.emit_loops(ctx, P, A, "C15d.F2.loop-terminates", sc, exempt=EXEMPT_LOOPS, semantic_exempt=SEMANTIC_EXEMPT_LOOPS)
     ctx.floor("C15d.F2", sum(counts.values()), FLOOR_LOOPS, "loops in the API scope")
     ctx.extra.setdefault("loops", {})[ctx.config] = counts
 
